@@ -18,6 +18,13 @@ from ..harness import Harness
 from ..engine import Query
 import z3
 
+# FINDINGS
+#   fixed in /repo by "fix:" commit d5f9c10 (read_discard addressing): after a read_discard the synchronous read port was
+#   addressed with the pre-discard pointer (or the next pointer when read_en coincided), so read_data showed a stale
+#   slot for one cycle while empty was false -> a consumer reading in that cycle lost one entry and saw another twice.
+#   Caught by assertion `data` (bmc_*, every configuration, e.g. depth 1 K=11 step 10); scenario predicate
+#   kf_after_read_discard marks exactly the affected cycle.  Before the fix ind_* was open (read-register invariant).
+
 PROP = "C18"
 ENCODED = ["luna/gateware/memory.py: TransactionalizedFIFO.elaborate (pointers, memory ports, empty/full/space_available)"]
 ASSUMPTIONS = [
@@ -29,8 +36,8 @@ ASSUMPTIONS = [
     "read_data is compared with the reference head in every cycle in which the reference queue is non-empty "
     "(the class documents read_data as valid whenever empty is false)",
 ]
-BOUNDS = "BMC from reset, all seven control inputs and write_data free every cycle; depth 1..3 (quick) / 1..5 (thorough), " \
-         "width 4 (and 8, and domain='usb' renaming, for one depth); IND k=1 from an arbitrary state constrained by " \
+BOUNDS = "BMC from reset, all seven control inputs and write_data free every cycle; quick: (width,depth) (4,1), (8,2 in domain usb), " \
+         "(4,3); thorough: width 4 depth 1..5 plus (8,2,usb); IND k=1 from an arbitrary state constrained by " \
          "pointer/count/store invariants (all histories) for flags and data"
 OUTSIDE = "commit and discard of the same side in one cycle; depths > 5 in BMC (IND covers the listed depths for all " \
           "histories); widths other than 4/8 (the DUT never inspects data)"
@@ -232,22 +239,23 @@ def _inv(ts, frame, h):
 def queries(tier):
     qs = []
     quick = tier == "quick"
-    # (width, depth, domain, K of the fully free layer)
-    cfgs = [(4, 1, "sync", 11 if quick else 14), (4, 2, "sync", 10 if quick else 12), (4, 3, "sync", 9 if quick else 11),
-            (8, 2, "usb", 8 if quick else 10)]
-    if not quick:
-        cfgs += [(4, 4, "sync", 10), (4, 5, "sync", 10)]
+    # (width, depth, domain, K of the fully free layer); quick keeps three configurations, the rest is thorough
+    if quick:
+        cfgs = [(4, 1, "sync", 11), (8, 2, "usb", 9), (4, 3, "sync", 9)]
+    else:
+        cfgs = [(4, 1, "sync", 14), (4, 2, "sync", 12), (4, 3, "sync", 11), (8, 2, "usb", 10), (4, 4, "sync", 10),
+                (4, 5, "sync", 10)]
     plain = {"write_commit": 1, "write_discard": 0, "read_commit": 1, "read_discard": 0}
     for width, depth, dom, K in cfgs:
         tag = f"w{width}d{depth}" + ("" if dom == "sync" else dom)
         f = (lambda width=width, depth=depth, dom=dom: FifoHarness(width, depth, dom))
-        qs.append(Query(f"bmc_{tag}", f, K, covers=[], timeout=600,
+        qs.append(Query(f"bmc_{tag}", f, K, covers=[], timeout=600, split=not quick,
                         desc=f"width {width} depth {depth} domain {dom}: reference commit/rollback queue, all seven "
                              "control inputs and the data free every cycle"))
         qs.append(Query(f"cover_{tag}", f, 2 * depth + 10, asserts=[], timeout=600,
                         hints={"wrapped": {"write_discard": 0, "read_discard": 0}},
                         desc="reachability twins (commit, rollback, wrap-around, full/empty corner requests)"))
-        if depth >= 2:
+        if depth >= (3 if quick else 2):
             Kp = 2 * depth + 10 if quick else (min(2 * depth + 11, 17) if depth <= 3 else 15)
             qs.append(Query(f"bmc_plain_{tag}", f, Kp, covers=[], layer=plain, split=False,
                             timeout=600 if depth <= 3 else 240, required=depth <= 3,
@@ -255,5 +263,6 @@ def queries(tier):
                                  "non-transactional mode the class documents), deeper wrap-around"))
         qs.append(Query(f"ind_{tag}", f, 1, kind="ind", invariants=_inv, timeout=600,
                         desc=f"{tag}: 1-step induction from an arbitrary state (all histories) with pointer/count/store invariants"))
-        qs.append(Query(f"cosim_{tag}", f, 0, kind="cosim", cosim_cycles=200 if quick else 1000))
+        if not quick or depth != 1:
+            qs.append(Query(f"cosim_{tag}", f, 0, kind="cosim", cosim_cycles=100 if quick else 1000))
     return qs
